@@ -35,6 +35,36 @@ CLAIMED = {
    text="Every integer width is compared with exact arithmetic at and around its bounds in every radix and on 40-digit random literals; float results are judged against the two neighbouring midpoints in big-integer arithmetic (no float parsing in the oracle); enumeration items of every enumeration per version, escapable strings, boundary u64 and all f64 bit classes are formatted and parsed back through real element slots.",
    note="Texts whose exact value exceeds the largest finite double are not judged; attribute slots are exercised through C01/C07 rather than here.",
    ref="DESIGN.md section 3 C20"),
+ 'C03': dict(
+   technique="stateful property-based testing: proptest-generated histories of public API calls (symbolic handles incl. stale ones) with a tree invariant recomputed from content() after every step",
+   text="After every step of every generated history the element tree obtained by own recursion over content() is compared with parent(), position(), get_sub_element_at(), model(), sub_elements() and all DFS iterators (model / element / depth-limited); place-dependent requests through stale handles must fail, mutating calls through them must fail and leave a full snapshot of every model unchanged.",
+   note="The tree is read through content() only; element identity is the crate's pointer equality. Operations that hit an open finding of another property (merge duplicates, failed merge, container-copy collisions) end or skip the step and are counted.",
+   ref="DESIGN.md section 3 C03"),
+ 'C04': dict(
+   technique="stateful property-based testing: naming-biased proptest histories; oracle = path map derived from the tree (concatenated item names) vs identifiable_elements(), get_element_by_path() incl. ghost-path probes, path()",
+   text="Path index exactness is checked after every step in both directions (nothing missing, nothing stale, each once, the very element), on every expected path, every path that ever existed in the history, and one-edit variants (prefix siblings such as /pkg1 vs /pkg10).",
+   note="Identifiable = type named in some version and first content item is a SHORT-NAME with one string value (own definition).",
+   ref="DESIGN.md section 3 C04"),
+ 'C05': dict(
+   technique="stateful property-based testing: reference-biased proptest histories; oracle = referrer multimap derived from the tree vs all keys of the reverse map (hook) and get_references_to(); exact invalid-reference report and resolve/report biconditional",
+   text="After every step every key of the reverse reference map (obtained through the verif hook, so stale keys nobody asks for are seen) is compared as a multiset with the reference elements in the tree carrying that text; check_references() must equal the set computed from the tree and the DEST tables.",
+   note="An entry counts as live when its weak pointer upgrades; an upgradable entry for an element that is not in the model is a violation.",
+   ref="DESIGN.md section 3 C05"),
+ 'C10': dict(
+   technique="stateful property-based testing: file-set proptest histories on 1-4 files; oracle = membership invariants and per-file projection of the tree vs file.elements_dfs() and the re-loaded file.serialize()",
+   text="Local file sets must be subsets of the parent's effective set and of the model's files, every element must be in at least one file, and each file's iterator and written text must equal the projection of the tree onto that file (the text must load on its own).",
+   note="The three header attributes of the root element are never edited by the generator (documented domain restriction).",
+   ref="DESIGN.md section 3 C10"),
+ 'C11': dict(
+   technique="stateful property-based testing with fault-directed arguments: every call that returns Err is framed by a full snapshot (tree, values, attributes, comments, local file sets, path index, lookups incl. ghost paths, reverse reference map, invalid-reference report, file list)",
+   text="About 100 (operation, error variant) classes are reached per run, including loads failing in the lexer, late in the parser, in the merge, in the overlap check and on a duplicate file name; snapshot before must equal snapshot after.",
+   note="write() is excluded (documented partial effect); remove_attribute() returning false is not an error value.",
+   ref="DESIGN.md section 3 C11"),
+ 'C12': dict(
+   technique="stateful property-based testing under a lock-audit monitor (hook): proptest histories with aliased / stale / foreign operands plus read-only, Debug, Ord and iterator-while-editing calls; specification API and CharacterData fuzzed with arbitrary arguments; deep models in a child process",
+   text="A blocking lock request that conflicts with a lock the same thread holds is reported (it would hang) instead of hanging, ParentElementLocked returned single-threaded is a violation, panics are caught, lock leaks are detected; stack use is probed on models up to 5000 package levels deep in a child process.",
+   note="With the monitor installed the real parking_lot locks are still taken after the logical grant, so behaviour other than blocking is unchanged.",
+   ref="DESIGN.md section 3 C12"),
 }
 NA_REASON = "check not built yet (construction in progress, see DESIGN.md section 6)"
 
